@@ -73,7 +73,9 @@ package origins
 //@   props C01 C02 C03 C09 C10 C11 C13 C16 C17 C18
 //@   pure
 //@   allocs <= 0
-//@   trusted TEMPORARY until L2 is built
+//@   ensures C13.parse_ok_iff: result1 == (len(str) <= 327 && parseScheme$2(str) && len(parseScheme$1(str)) >= 3 && parseScheme$1(str)[:3] == "://" && fastParseHost$2(parseScheme$1(str)[3:]) && (len(fastParseHost$1(parseScheme$1(str)[3:])) == 0 || (fastParseHost$1(parseScheme$1(str)[3:])[0] == ':' && parsePort$2(fastParseHost$1(parseScheme$1(str)[3:])[1:]) && len(parsePort$1(fastParseHost$1(parseScheme$1(str)[3:])[1:])) == 0)))
+//@   ensures C13.parse_triple: result1 ==> result0.Scheme === parseScheme$0(str) && result0.Host === fastParseHost$0(parseScheme$1(str)[3:]) && result0.Port == (len(fastParseHost$1(parseScheme$1(str)[3:])) == 0 ? 0 : parsePort$0(fastParseHost$1(parseScheme$1(str)[3:])[1:]))
+//@   ensures result1 ==> 0 <= result0.Port && result0.Port <= 65535
 
 //@ func HostPattern.hostOnly
 //@   props C04 C05 C13 C15 C17
@@ -97,12 +99,26 @@ package origins
 //@   requires p != nil && (p.HostPattern.Kind == 3 ==> len(p.HostPattern.Value) >= 2)
 //@   ensures result1 == IsETLD(HostOnlyOf(p.HostPattern.Value, p.HostPattern.Kind))
 
+//@ func parseHostPattern
+//@   props C01 C04 C05 C13 C15 C17
+//@   pure
+//@   ensures C13.host_error_names_pattern: result2 != nil ==> dyntype(result2, "*cfgerrors.UnacceptableOriginPatternError") && payload(result2, "*cfgerrors.UnacceptableOriginPatternError") != nil && payload(result2, "*cfgerrors.UnacceptableOriginPatternError").Value === full && (payload(result2, "*cfgerrors.UnacceptableOriginPatternError").Reason == "invalid" || payload(result2, "*cfgerrors.UnacceptableOriginPatternError").Reason == "prohibited")
+//@   ensures result2 == nil ==> fastParseHost$2(HostOnlyOf(str, peekKind(str))) && result1 === fastParseHost$1(HostOnlyOf(str, peekKind(str))) && len(fastParseHost$0(HostOnlyOf(str, peekKind(str))).Value) >= 1
+//@   ensures C13.wildcard_needs_domain: result2 == nil && peekKind(str) == 3 ==> result0.Kind == 3 && !fastParseHost$0(HostOnlyOf(str, 3)).AssumeIP && len(fastParseHost$0(HostOnlyOf(str, 3)).Value) <= 251 && result0.Value === str[:len(fastParseHost$0(HostOnlyOf(str, 3)).Value) + 2]
+//@   ensures result2 == nil && peekKind(str) == 0 && !fastParseHost$0(str).AssumeIP ==> result0.Kind == 0 && result0.Value === str[:len(fastParseHost$0(str).Value)]
+//@   ensures result2 == nil && peekKind(str) == 0 && fastParseHost$0(str).AssumeIP ==> (result0.Kind == 1 || result0.Kind == 2) && result0.Value == fastParseHost$0(str).Value
+//@   ensures result2 == nil ==> len(result0.Value) >= 1 && (result0.Kind == 3 ==> len(result0.Value) >= 3) && 0 <= result0.Kind && result0.Kind <= 3
+
 //@ func ParsePattern
 //@   props C01 C04 C05 C13 C15 C17
 //@   pure
-//@   trusted TEMPORARY until L2 is built
-//@   ensures result1 == nil ==> len(result0.HostPattern.Value) >= 1 && (result0.HostPattern.Kind == 3 ==> len(result0.HostPattern.Value) >= 3) && 0 <= result0.HostPattern.Kind && result0.HostPattern.Kind <= 3
-//@   ensures result1 != nil ==> dyntype(result1, "*cfgerrors.UnacceptableOriginPatternError") && payload(result1, "*cfgerrors.UnacceptableOriginPatternError") != nil && payload(result1, "*cfgerrors.UnacceptableOriginPatternError").Value === str
+//@   ensures C13.error_names_pattern: result1 != nil ==> dyntype(result1, "*cfgerrors.UnacceptableOriginPatternError") && payload(result1, "*cfgerrors.UnacceptableOriginPatternError") != nil && payload(result1, "*cfgerrors.UnacceptableOriginPatternError").Value === str && (payload(result1, "*cfgerrors.UnacceptableOriginPatternError").Reason == "invalid" || payload(result1, "*cfgerrors.UnacceptableOriginPatternError").Reason == "prohibited")
+//@   ensures C13.no_null_star_file: result1 == nil ==> str != "*" && str != "null" && parseScheme$2(str) && result0.Scheme === parseScheme$0(str) && result0.Scheme != "file"
+//@   ensures C13.scheme_host_separator: result1 == nil ==> len(parseScheme$1(str)) >= 3 && parseScheme$1(str)[:3] == "://"
+//@   ensures C13.host: result1 == nil ==> parseHostPattern$2(parseScheme$1(str)[3:], str) == nil && result0.HostPattern === parseHostPattern$0(parseScheme$1(str)[3:], str)
+//@   ensures C13.no_https_ip: result1 == nil ==> !((result0.HostPattern.Kind == 1 || result0.HostPattern.Kind == 2) && result0.Scheme == "https")
+//@   ensures C13.port: result1 == nil ==> (len(parseHostPattern$1(parseScheme$1(str)[3:], str)) == 0 ? result0.Port == 0 : (parseHostPattern$1(parseScheme$1(str)[3:], str)[0] == ':' && parsePortPattern$2(parseHostPattern$1(parseScheme$1(str)[3:], str)[1:]) && len(parsePortPattern$1(parseHostPattern$1(parseScheme$1(str)[3:], str)[1:])) == 0 && result0.Port == parsePortPattern$0(parseHostPattern$1(parseScheme$1(str)[3:], str)[1:]) && !isDefaultPortForScheme(result0.Scheme, result0.Port)))
+//@   ensures result1 == nil ==> len(result0.HostPattern.Value) >= 1 && (result0.HostPattern.Kind == 3 ==> len(result0.HostPattern.Value) >= 3) && 0 <= result0.HostPattern.Kind && result0.HostPattern.Kind <= 3 && 0 <= result0.Port && result0.Port <= 65536
 
 //@ func Tree.Insert
 //@   props C01 C04 C05 C06 C15 C17
@@ -117,3 +133,68 @@ package origins
 //@   assigns heap("E!Slice")
 //@   ensures !(t.root.schemes == nil && t.root.children == nil)
 //@   ensures forall o *Tree :: o != t ==> o.root.schemes === old(o.root.schemes) && o.root.children === old(o.root.children)
+
+//@ func parsePort
+//@   props C01 C13 C17 C18
+//@   pure
+//@   allocs <= 0
+//@   ensures !result2 ==> result0 == 0 && result1 === str
+//@   ensures result2 ==> 1 <= result0 && result0 <= 65535 && len(result1) < len(str) && len(str) - len(result1) <= 5 && result1 === str[len(str)-len(result1):]
+//@   ensures result2 ==> isNonZeroDigit(str[0]) && (forall k :: 1 <= k && k < len(str) - len(result1) ==> isDigit(str[k]))
+//@   ensures result2 ==> result0 == DecVal(str, len(str) - len(result1))
+//@   ensures result2 ==> (len(str) - len(result1) == 5 || len(result1) == 0 || !isDigit(result1[0]))
+//@   ensures (len(str) > 0 && isNonZeroDigit(str[0]) && (len(str) == 1 || !isDigit(str[1]))) ==> result2
+//@   loop 0 invariant 1 <= i && i <= end && end <= 5 && end <= len(str)
+//@   loop 0 invariant 1 <= port && port < Pow10(i) && port == DecVal(str, i)
+//@   loop 0 invariant forall k :: 1 <= k && k < i ==> isDigit(str[k])
+//@   loop 0 decreases end - i
+
+//@ func lastByte
+//@   props C01 C13 C17 C18
+//@   pure
+//@   allocs <= 0
+//@   ensures result1 == (len(str) > 0)
+//@   ensures result1 ==> result0 == str[len(str)-1]
+
+//@ func peekKind
+//@   props C04 C05 C13 C17
+//@   pure
+//@   allocs <= 0
+//@   ensures result == ((len(str) >= 2 && str[0] == '*' && str[1] == '.') ? 3 : 0)
+
+//@ func isDefaultPortForScheme
+//@   props C04 C05 C13 C17
+//@   pure
+//@   allocs <= 0
+//@   ensures result == ((port == 80 && scheme == "http") || (port == 443 && scheme == "https"))
+
+//@ func parsePortPattern
+//@   props C04 C05 C13 C17
+//@   pure
+//@   allocs <= 0
+//@   ensures (len(str) >= 1 && str[0] == '*') ==> ok && port == 65536 && rest === str[1:]
+//@   ensures !(len(str) >= 1 && str[0] == '*') ==> port == parsePort$0(str) && rest === parsePort$1(str) && ok == parsePort$2(str)
+
+//@ func HostPattern.IsIP
+//@   props C04 C05 C13 C17
+//@   pure
+//@   allocs <= 0
+//@   requires hp != nil
+//@   ensures result == (hp.Kind == 2 || hp.Kind == 1)
+
+//@ func fastParseHost
+//@   props C01 C13 C17 C18
+//@   pure
+//@   allocs <= 0
+//@   ensures (len(str) >= 4 && str[0] == '[') && result2 ==> result0.AssumeIP && len(result0.Value) + 2 <= len(str) && result0.Value === str[1:len(result0.Value)+1] && str[len(result0.Value)+1] == ']' && result1 === str[len(result0.Value)+2:] && (forall k :: 0 <= k && k <= len(result0.Value) ==> str[k] != ']')
+//@   ensures (len(str) >= 4 && str[0] == '[') && !result2 ==> result1 === str && (forall k :: 0 <= k && k < len(str) ==> str[k] != ']')
+//@   ensures !(len(str) >= 4 && str[0] == '[') && result2 ==> len(str) > 0 && str[0] != '.' && len(result0.Value) <= len(str) && result0.Value === str[:len(result0.Value)] && result1 === str[len(result0.Value):]
+//@   ensures !(len(str) >= 4 && str[0] == '[') && result2 ==> (forall k :: 0 <= k && k < len(result0.Value) ==> HostByte(str[k])) && (forall k :: 1 <= k && k < len(result0.Value) ==> !(str[k] == '.' && str[k-1] == '.'))
+//@   ensures !(len(str) >= 4 && str[0] == '[') && result2 ==> (len(result1) == 0 || !HostByte(result1[0])) && result0.AssumeIP == IPish(str, len(result0.Value))
+//@   ensures !(len(str) >= 4 && str[0] == '[') && !result2 ==> len(str) == 0 || str[0] == '.' || (exists k :: 1 <= k && k < len(str) && str[k] == '.' && str[k-1] == '.')
+//@   loop 0 invariant 0 <= i && i <= len(str) && len(str) > 0 && str[0] != '.'
+//@   loop 0 invariant forall k :: 0 <= k && k < i ==> HostByte(str[k])
+//@   loop 0 invariant forall k :: 1 <= k && k < i ==> !(str[k] == '.' && str[k-1] == '.')
+//@   loop 0 invariant previousByteWasLabelSep == (i > 0 && str[i-1] == '.')
+//@   loop 0 invariant assumeIPv4 == IPish(str, i)
+//@   loop 0 decreases len(str) - i
